@@ -10,11 +10,14 @@ use sha2::{Digest, Sha256};
 pub struct Mixed {
     pub size: usize,
     pub a: u64,
+    /// changes constants of the arithmetic chain: another circuit with the
+    /// same constraint count
+    pub variant: u64,
 }
 
 impl Default for Mixed {
     fn default() -> Self {
-        Mixed { size: 64, a: 3 }
+        Mixed { size: 64, a: 3, variant: 0 }
     }
 }
 
@@ -43,7 +46,7 @@ impl Circuit for Mixed {
                 Constraint::new()
                     .left(BlsScalar::from(k))
                     .right(BlsScalar::from(k + 1))
-                    .constant(BlsScalar::from(k * 3))
+                    .constant(BlsScalar::from(k * 3 + self.variant))
                     .a(acc)
                     .b(x),
             );
@@ -74,7 +77,7 @@ pub fn circuit_set(thorough: bool) -> Vec<(usize, u64)> {
 
 /// digests of everything compilation and proving produce for one circuit
 pub fn digests(pp: &PublicParameters, size: usize, a: u64) -> Result<Vec<(String, String)>, Error> {
-    let circuit = Mixed { size, a };
+    let circuit = Mixed { size, a, variant: 0 };
     let label = format!("c18-{size}");
     let (prover, verifier) = Compiler::compile_with_circuit(pp, label.as_bytes(), &circuit)?;
     let mut rng = ChaCha20Rng::seed_from_u64(0xC18 + size as u64);
@@ -92,4 +95,33 @@ pub fn digests(pp: &PublicParameters, size: usize, a: u64) -> Result<Vec<(String
 pub fn setup(capacity: usize) -> PublicParameters {
     let mut rng = ChaCha20Rng::seed_from_u64(0x5eed_0000 + capacity as u64);
     PublicParameters::setup(capacity, &mut rng).expect("setup")
+}
+
+/// Three DIFFERENT circuits with one label and one constraint count. Their
+/// keys and proofs must not depend on which of them the process handled
+/// before (state keyed by label and size only would confuse them).
+pub fn history_set() -> Vec<Mixed> {
+    vec![
+        Mixed { size: 1200, a: 5, variant: 0 },
+        Mixed { size: 1200, a: 5, variant: 1 },
+        Mixed { size: 1200, a: 6, variant: 2 },
+    ]
+}
+
+/// digests of the history set, computed in the given order within this process
+pub fn history_digests(pp: &PublicParameters, order: &[usize]) -> Result<Vec<(String, String)>, Error> {
+    use dusk_bytes::Serializable;
+    let set = history_set();
+    let mut out = Vec::new();
+    for i in order {
+        let circuit = &set[*i % set.len()];
+        let (prover, verifier) = Compiler::compile_with_circuit(pp, b"c18-history", circuit)?;
+        let mut rng = ChaCha20Rng::seed_from_u64(0xC18_000 + *i as u64);
+        let (proof, pi) = prover.prove(&mut rng, circuit)?;
+        verifier.verify(&proof, &pi)?;
+        out.push((format!("history{i}.prover"), sha(&prover.to_bytes())));
+        out.push((format!("history{i}.verifier"), sha(&verifier.to_bytes())));
+        out.push((format!("history{i}.proof"), sha(&proof.to_bytes())));
+    }
+    Ok(out)
 }
